@@ -516,6 +516,15 @@ func (p *printer) exprP(e Expr, minPrec int, start *int) {
 		p.expr(x.E)
 		p.tok(")")
 		x.Last = p.line
+		// a directly parenthesised expression includes the lines of its parentheses
+		if ip := x.E.pos(); ip != nil {
+			if x.First < ip.First {
+				ip.First = x.First
+			}
+			if x.Last > ip.Last {
+				ip.Last = x.Last
+			}
+		}
 	case *BinExpr:
 		pr := binPrec[x.Op]
 		open := pr[0] < minPrec
@@ -536,7 +545,10 @@ func (p *printer) exprP(e Expr, minPrec int, start *int) {
 		p.operand(x.R, rmin, &s2)
 		x.Last = p.line
 		if open {
-			p.tok(")")
+			x.Last = p.tok(")")
+			if *start < x.First {
+				x.First = *start
+			}
 		}
 	case *UnExpr:
 		open := unaryPrec < minPrec
@@ -550,7 +562,10 @@ func (p *printer) exprP(e Expr, minPrec int, start *int) {
 		p.operand(x.E, unaryPrec, &s)
 		x.Last = p.line
 		if open {
-			p.tok(")")
+			x.Last = p.tok(")")
+			if *start < x.First {
+				x.First = *start
+			}
 		}
 	case *TableExpr:
 		x.First = p.tok("{")
